@@ -10,8 +10,8 @@ import gen, pipeline, model, impl, shex_text, shacl_text, findings as F, oracle
 from props import base
 from shexer import consts as C
 
-PROPS_MODULES = ["ShexerModel.Props.C17"]
-DEPS = []
+PROPS_MODULES = ["ShexerModel.Props.C17", "ShexerModel.Props.GenStrLcp"]
+DEPS = ["S.longest_common_prefix"]
 replay = base.replay
 SEPS = ":/#"
 
@@ -223,6 +223,7 @@ def run(ctx):
             except Exception as e:
                 if not F.match(F.load("C05"), {"kind": "exception", "exc": type(e).__name__, "msg": str(e)[:200], "cfg": cfg, "triples": g}):
                     viol.append({"what": "SHACL with detect_minimal_iri failed: %s %s" % (type(e).__name__, str(e)[:120]), **pipeline.case_json(g, cfg)})
+    base.fragment_s_tie(ctx, dis, stats, ['longest_common_prefix', 'determine_suitable_iri_pattern'])
     return base.std_result(ctx, cases, viol, dis, base.known_lines(kf, hit), stats, nontriv, [],
                            "graphs whose instance IRIs come from 1-3 of 9 namespaces with shared / unshared path segments (http, https, urn, a namespace "
                            "that is a string prefix of another) x examples_mode in {None, shape, cons, all} x inverse_paths x detect_minimal_iri, ShExC and "
